@@ -15,7 +15,7 @@ RULE = ("seeded random operation sequences (profile c01: ~35 external operations
 TRUSTED = [
     "modelled, not verified: go-diskqueue (a channel's queue is the multiset of messages waiting on it: placement and order are abstracted; only ephemeral queues are bounded), Go channels/select/mutexes (each operation is atomic at quiescence), time (every operation carries the harness's clock reading; timeouts are driven by VerifScan with margins of seconds)",
     "hooks /repo/nsqd/verif_core.go (VerifHeld, VerifScan: build tag verif); /stats over HTTP is the observation",
-    "the coarse model is quiescent-to-quiescent: interleavings inside one operation (the windows K1/K2/K3-K5 of DESIGN.md section 6) are below its grain",
+    "the coarse model is quiescent-to-quiescent: interleavings inside one operation (the windows K3-K5 of DESIGN.md section 6; K1 and K2 were repaired: F23, F24 of section 10.3) are below its grain; the schedule-level models of DESIGN 10.8 / 10.9 cover the lock protocol and the TOUCH / scan race",
     "schedule-level hand-off model (model/Handoff.v, DESIGN 10.8): the RWMutex (RLock enabled when the closer does not hold the write lock, Lock when nobody holds it; no writer preference: a superset of Go's behaviours), the atomic exit flag (sequentially consistent steps) and Go's defer (the unlock runs on every way out) are modelled, not verified; that the functions listed in gen/CoreShape.v core_touches are the only ones that move a message between a channel's sets or into a topic's queue rests on the translator (tools/gotables/coreshape.go); locks outside the model (Channel.Lock, inFlightMutex, NSQD.Lock) are not part of the no-deadlock statement",
 ]
 ASSUMPTIONS = ["published message ids are fresh (C12)", "disk write errors do not occur"]
